@@ -31,7 +31,7 @@ Qed.
 
 (* nothing else in codec/ touches the registry *)
 Definition touches_registry (f : foot) : bool :=
-  existsb (String.eqb "checksumServiceContext") (f_reads f ++ f_writes f).
+  existsb (String.eqb registry_var) (f_reads f ++ f_writes f).
 Definition registry_functions : list string := ["Registry"; "Get"; "Remove"; "Clear"]%string.
 Lemma H_registry_private :
   forallb (fun f => negb (touches_registry f) || (String.eqb (f_pkg f) "codec" && existsb (String.eqb (f_name f)) registry_functions)) footprint = true.
